@@ -223,9 +223,9 @@ def prop (l : Line) (impl : String) : String :=
 
 /-- finding classes, evaluated on what the MODEL's validator retains -/
 def kf (l : Line) : String :=
-  let (kept, bytes, _) := encodeChain l.c l.files 0
-  let ids := (if kfBoolArr (decodeChain l.o bytes).1 then ["KF-C01-boolarr"] else []) ++
-    (if kept.any (kfZero l.o.fac) then ["KF-C01-zero"] else []) ++
+  let (kept, _, _) := encodeChain l.c l.files 0
+  -- (the class of KF-C01-boolarr — a decoded typedef.Bool array holding a byte other than 0 / 1 / 255 — is gone: fixed in /repo 5da5106)
+  let ids := (if kept.any (kfZero l.o.fac) then ["KF-C01-zero"] else []) ++
     (if kept.any (kfArr l.o.fac) then ["KF-C01-arr"] else []) ++
     (if kept.any (kfFFFD l.o.fac) then ["KF-C01-fffd"] else [])
   if ids.isEmpty then "-" else ",".intercalate ids
